@@ -106,10 +106,10 @@ seq_t dtw_distance(seq_t *s1, idx_t l1,
     #endif
     if (settings->use_pruning || settings->only_ub) {
         max_dist = ub_euclidean(s1, l1, s2, l2);
-        max_dist = pow(max_dist, 2);
         if (settings->only_ub) {
             return max_dist;
         }
+        max_dist = pow(max_dist, 2);
     } else if (max_dist == 0) {
         max_dist = INFINITY;
     } else {
@@ -341,10 +341,10 @@ seq_t dtw_distance_ndim(seq_t *s1, idx_t l1,
     #endif
     if (settings->use_pruning || settings->only_ub) {
         max_dist = ub_euclidean_ndim(s1, l1, s2, l2, ndim);
-        max_dist = pow(max_dist, 2);
         if (settings->only_ub) {
             return max_dist;
         }
+        max_dist = pow(max_dist, 2);
     } else if (max_dist == 0) {
         max_dist = INFINITY;
     } else {
